@@ -30,6 +30,10 @@ pub enum OpKind {
     PollR,
     /// `PollOnce(Writable)`
     PollW,
+    /// multishot receive STREAM (`SubmitMultiStream` over `RecvMulti` with the runtime's buffer
+    /// pool - what `read_multi` / `recv_multi` of compio-net are made of) drained by a consumer
+    /// loop; the "operation" finishes when the stream ends
+    RecvMulti,
 }
 
 impl OpKind {
@@ -41,12 +45,60 @@ impl OpKind {
             OpKind::Connect => "connect",
             OpKind::PollR => "pollonce_r",
             OpKind::PollW => "pollonce_w",
+            OpKind::RecvMulti => "recv_multi",
         }
     }
 
     /// completes when its descriptor becomes readable (data / pending connection)
     pub fn wants_readable(self) -> bool {
-        matches!(self, OpKind::Recv | OpKind::Read | OpKind::Accept | OpKind::PollR)
+        matches!(self, OpKind::Recv | OpKind::Read | OpKind::Accept | OpKind::PollR | OpKind::RecvMulti)
+    }
+
+    pub fn is_stream(self) -> bool {
+        self == OpKind::RecvMulti
+    }
+}
+
+/// How the token reaches the operation: the order / nesting of the public combinators between the
+/// operation's future (or stream) and the harness's `poll` (part of the cancellation-route dimension).
+/// Personality 0 ("no personality") is valid on io_uring and ignored by the polling driver.
+#[derive(Clone, Copy, Debug, PartialEq, Eq)]
+pub enum Nest {
+    /// `f.with_cancel(t)`
+    Cancel,
+    /// `f.with_personality(0).with_cancel(t)` - the token is the OUTER combinator
+    PersCancel,
+    /// `f.with_cancel(t).with_personality(0)`
+    CancelPers,
+    /// `f.with_personality(0).with_cancel(t).with_personality(0)`
+    PersCancelPers,
+    /// `rt.submit(op).with_extra()` (the `Submit<T, Extra>` future) inside `with_cancel(t)`
+    Extra,
+    /// `rt.submit(op).with_extra()` inside `.with_personality(0).with_cancel(t)`
+    ExtraPers,
+    /// `f.with_cancel(t).fail_fast()`: the wrapper itself answers `Err(Cancelled)` when the token fires
+    FailFast,
+    /// streams only: the STREAM is bare, the token scope is a `with_cancel(t)` around the consumer
+    /// future (`async { while let Some(x) = s.next().await {..} }.with_cancel(t)`)
+    FutScope,
+}
+
+impl Nest {
+    pub fn name(self) -> &'static str {
+        match self {
+            Nest::Cancel => "cancel",
+            Nest::PersCancel => "pers.cancel",
+            Nest::CancelPers => "cancel.pers",
+            Nest::PersCancelPers => "pers.cancel.pers",
+            Nest::Extra => "extra.cancel",
+            Nest::ExtraPers => "extra.pers.cancel",
+            Nest::FailFast => "cancel.failfast",
+            Nest::FutScope => "futscope",
+        }
+    }
+
+    pub fn through_personality(self) -> bool {
+        matches!(self, Nest::PersCancel | Nest::CancelPers | Nest::PersCancelPers | Nest::ExtraPers)
     }
 }
 
@@ -60,9 +112,32 @@ pub struct OpSpec {
     /// an OUTER cancel scope wrapped around the inner one (`f.with_cancel(tok).with_cancel(outer)`):
     /// the innermost scope owns the operation, the outer token must not affect it
     pub outer: Option<usize>,
+    /// combinator nesting that carries `tok` (ignored for token-less operations)
+    pub nest: Nest,
+    /// the future lives in a task spawned on the runtime and is polled by the EXECUTOR (inside every
+    /// reap); the harness holds the `JoinHandle`: `Drop(i)` is then "cancel the task"
+    pub task: bool,
 }
 
 impl OpSpec {
+    /// name used in violation keys: the plain kind for the plain shape (keys of the original
+    /// scenarios are unchanged), kind@nesting / kind@task otherwise
+    pub fn key_name(&self) -> String {
+        let mut s = self.kind.name().to_string();
+        if self.tok.is_some() && self.nest != Nest::Cancel {
+            s.push('@');
+            s.push_str(self.nest.name());
+        }
+        if self.task {
+            s.push_str("@task");
+        }
+        s
+    }
+
+    pub fn describe(&self) -> String {
+        format!("{}@fd{}/{}", self.key_name(), self.fd, self.tok_name())
+    }
+
     pub fn tok_name(&self) -> String {
         match self.tok {
             Some(k) => format!("tok{k}"),
@@ -83,52 +158,74 @@ pub struct Scenario {
     pub deeper: bool,
     pub fds: Vec<FdKind>,
     pub ops: Vec<OpSpec>,
+    /// additional `Ready` steps per descriptor / `Reap` steps per sequence on top of the tier's
+    /// bounds (stream scenarios: 0, 1, 2 chunks reaped but not yet taken need two of each)
+    pub more_ready: u8,
+    pub more_reap: u8,
+    /// explored this many steps deeper on io_uring (single-operation scenarios are cheap)
+    pub iour_bonus: usize,
+}
+
+impl Scenario {
+    pub fn extra_depth(&self, b: &Bounds) -> usize {
+        (self.deeper as usize * b.deeper_bonus).max(self.iour_bonus)
+    }
+}
+
+fn sc(name: &'static str, deeper: bool, fds: Vec<FdKind>, ops: Vec<OpSpec>) -> Scenario {
+    Scenario { name, deeper, fds, ops, more_ready: 0, more_reap: 0, iour_bonus: 0 }
 }
 
 fn op(kind: OpKind, fd: usize, tok: usize) -> OpSpec {
-    OpSpec { kind, fd, tok: Some(tok), outer: None }
+    OpSpec { kind, fd, tok: Some(tok), outer: None, nest: Nest::Cancel, task: false }
 }
 
 fn plain(kind: OpKind, fd: usize) -> OpSpec {
-    OpSpec { kind, fd, tok: None, outer: None }
+    OpSpec { kind, fd, tok: None, outer: None, nest: Nest::Cancel, task: false }
+}
+
+fn nest(kind: OpKind, fd: usize, tok: usize, nest: Nest) -> OpSpec {
+    OpSpec { nest, ..op(kind, fd, tok) }
 }
 
 pub fn scenarios() -> Vec<Scenario> {
     use FdKind::*;
     use OpKind::*;
     vec![
-        Scenario { name: "recv2", deeper: true, fds: vec![Sock], ops: vec![op(Recv, 0, 0), op(Recv, 0, 1)] },
+        sc("recv2", true, vec![Sock], vec![op(Recv, 0, 0), op(Recv, 0, 1)]),
         // nested cancel scopes: op 0 sits in scope tok0 inside scope tok1; op 1 in scope tok1 only
+        sc("nested-scopes", false, vec![Sock], vec![OpSpec { outer: Some(1), ..op(Recv, 0, 0) }, op(Recv, 0, 1)]),
+        sc("recv2-one-token", false, vec![Sock], vec![op(Recv, 0, 0), op(Recv, 0, 0)]),
+        sc("recv+pollonce", true, vec![Sock], vec![op(Recv, 0, 0), op(PollR, 0, 1)]),
+        sc("pollonce+recv", false, vec![Sock], vec![plain(PollR, 0), op(Recv, 0, 0)]),
+        sc("accept2", false, vec![Listener], vec![op(Accept, 0, 0), plain(Accept, 0)]),
+        sc("piperead2", false, vec![Pipe], vec![plain(Read, 0), op(Read, 0, 0)]),
+        sc("connect+pollonce", false, vec![Blackhole], vec![op(Connect, 0, 0), op(PollW, 0, 1)]),
+        sc("recv2+piperead", false, vec![Sock, Pipe], vec![op(Recv, 0, 0), plain(Recv, 0), op(Read, 1, 0)]),
+        sc("recv+pollonce+accept", false, vec![Sock, Listener], vec![op(Recv, 0, 0), op(PollR, 0, 1), op(Accept, 1, 1)]),
+        sc("connect+recv2", false, vec![Blackhole, Sock], vec![op(Connect, 0, 0), op(Recv, 1, 0), op(Recv, 1, 1)]),
+        // ---- the combinator nesting that carries the token, as part of the route dimension
+        sc("nest-pers-cancel", false, vec![Sock], vec![nest(Recv, 0, 0, Nest::PersCancel), nest(Recv, 0, 1, Nest::CancelPers)]),
+        sc("nest-extra", false, vec![Pipe], vec![nest(Read, 0, 0, Nest::Extra), nest(Read, 0, 1, Nest::PersCancelPers)]),
+        sc("nest-accept", false, vec![Listener], vec![nest(Accept, 0, 0, Nest::PersCancel), nest(Accept, 0, 1, Nest::ExtraPers)]),
+        // personality nesting inside an outer cancel scope; fail-fast scope
+        sc(
+            "nest-scopes-failfast",
+            false,
+            vec![Sock],
+            vec![OpSpec { outer: Some(1), ..nest(Recv, 0, 0, Nest::PersCancel) }, nest(Recv, 0, 1, Nest::FailFast)],
+        ),
+        // ---- multishot receive streams as cancellable subjects
+        Scenario { more_ready: 1, more_reap: 1, iour_bonus: 1, ..sc("recvmulti", true, vec![Sock], vec![op(RecvMulti, 0, 0)]) },
+        sc("recvmulti+recv", false, vec![Sock], vec![op(RecvMulti, 0, 0), op(Recv, 0, 1)]),
         Scenario {
-            name: "nested-scopes",
-            deeper: false,
-            fds: vec![Sock],
-            ops: vec![OpSpec { kind: Recv, fd: 0, tok: Some(0), outer: Some(1) }, op(Recv, 0, 1)],
+            more_ready: 1,
+            ..sc("recvmulti-task", true, vec![Sock], vec![OpSpec { task: true, ..op(RecvMulti, 0, 0) }])
         },
-        Scenario { name: "recv2-one-token", deeper: false, fds: vec![Sock], ops: vec![op(Recv, 0, 0), op(Recv, 0, 0)] },
-        Scenario { name: "recv+pollonce", deeper: true, fds: vec![Sock], ops: vec![op(Recv, 0, 0), op(PollR, 0, 1)] },
-        Scenario { name: "pollonce+recv", deeper: false, fds: vec![Sock], ops: vec![plain(PollR, 0), op(Recv, 0, 0)] },
-        Scenario { name: "accept2", deeper: false, fds: vec![Listener], ops: vec![op(Accept, 0, 0), plain(Accept, 0)] },
-        Scenario { name: "piperead2", deeper: false, fds: vec![Pipe], ops: vec![plain(Read, 0), op(Read, 0, 0)] },
-        Scenario { name: "connect+pollonce", deeper: false, fds: vec![Blackhole], ops: vec![op(Connect, 0, 0), op(PollW, 0, 1)] },
-        Scenario {
-            name: "recv2+piperead",
-            deeper: false,
-            fds: vec![Sock, Pipe],
-            ops: vec![op(Recv, 0, 0), plain(Recv, 0), op(Read, 1, 0)],
-        },
-        Scenario {
-            name: "recv+pollonce+accept",
-            deeper: false,
-            fds: vec![Sock, Listener],
-            ops: vec![op(Recv, 0, 0), op(PollR, 0, 1), op(Accept, 1, 1)],
-        },
-        Scenario {
-            name: "connect+recv2",
-            deeper: false,
-            fds: vec![Blackhole, Sock],
-            ops: vec![op(Connect, 0, 0), op(Recv, 1, 0), op(Recv, 1, 1)],
-        },
+        // the token reaching the stream through a personality nesting (`StreamExt` combinators) and
+        // through a scope around the consumer future
+        sc("recvmulti-pers", false, vec![Sock], vec![nest(RecvMulti, 0, 0, Nest::PersCancel)]),
+        sc("recvmulti-futscope", false, vec![Sock], vec![nest(RecvMulti, 0, 0, Nest::FutScope)]),
     ]
 }
 
@@ -240,7 +337,7 @@ fn enabled(sc: &Scenario, b: &Bounds, a: &Abs) -> Vec<Step> {
         }
     }
     for (f, k) in sc.fds.iter().enumerate() {
-        if *k != FdKind::Blackhole && a.ready[f] < b.max_ready {
+        if *k != FdKind::Blackhole && a.ready[f] < b.max_ready + sc.more_ready {
             v.push(Step::Ready(f as u8));
         }
     }
@@ -248,7 +345,7 @@ fn enabled(sc: &Scenario, b: &Bounds, a: &Abs) -> Vec<Step> {
     if any_submitted && a.last != Some(Step::Harvest) {
         v.push(Step::Harvest);
     }
-    if any_submitted && a.reaps < b.max_reap && !matches!(a.last, Some(Step::Harvest) | Some(Step::Reap)) {
+    if any_submitted && a.reaps < b.max_reap + sc.more_reap && !matches!(a.last, Some(Step::Harvest) | Some(Step::Reap)) {
         v.push(Step::Reap);
     }
     v
@@ -308,7 +405,7 @@ pub fn draw(sc: &Scenario, b: &Bounds, ch: &mut Chooser) -> Vec<Step> {
 
 /// All sequences of a scenario within the bounds, each with the choice list that produced it.
 pub fn enumerate(sc: &Scenario, b: &Bounds) -> Vec<(Vec<Step>, Vec<u32>)> {
-    let b = &Bounds { depth: b.depth + sc.deeper as usize * b.deeper_bonus, ..*b };
+    let b = &Bounds { depth: b.depth + sc.extra_depth(b), ..*b };
     let mut out = Vec::new();
     vcore::explore(0, u64::MAX, |ch| {
         let seq = draw(sc, b, ch);
